@@ -20,6 +20,7 @@ type Engine struct {
 	tt                *TypeTable
 	addrTakenCache    map[*ast.FuncDecl]map[types.Object]bool
 	fieldAddrCache    map[*ast.FuncDecl]map[types.Object][]string
+	globals           map[*Pkg]*pkgGlobals
 	baseSorts         map[string]string
 	strictAppendFrame bool
 	unroll            int
@@ -39,6 +40,7 @@ type FnResult struct {
 	Contract     *FuncContract
 	Obls         []*Obl
 	Err          string
+	Unsupported  string // non-empty: symbolic execution stopped at a construct outside the modelled subset
 	Abstractions []string
 	Assumed      []string
 	Paths        int
@@ -74,8 +76,12 @@ func (e *Engine) verifyFunc(p *Pkg, con *FuncContract) (res *FnResult) {
 	defer func() {
 		if r := recover(); r != nil {
 			if u, ok := r.(unsupported); ok {
-				res.Err = "unsupported: " + u.msg
-				res.Obls = c.obls
+				// The function can no longer be brought within the verifier's reach (a construct outside the
+				// modelled subset): every obligation that was discharged for it on the unchanged tree is now
+				// undischarged. Reported like contract drift: one failed obligation naming the reason.
+				res.Unsupported = u.msg
+				res.Obls = append(c.obls, &Obl{Name: res.Fn + "#unsupported", Kind: "drift", Prop: con.Primary, Fn: res.Fn,
+					Goal: "false", Text: "function is outside the verified subset: " + u.msg})
 				return
 			}
 			panic(r)
@@ -122,6 +128,7 @@ func (e *Engine) verifyFunc(p *Pkg, con *FuncContract) (res *FnResult) {
 			}
 		}
 	}
+	c.initLiteralGlobals(st, fd)
 	c.entry = st.clone()
 	c.oldState = c.entry
 	// vacuity: the preconditions must be satisfiable
@@ -493,6 +500,10 @@ func (e *Engine) solveFile(o *Obl, file string) {
 		o.TimeS = time.Since(t0).Seconds()
 	}
 	vac := o.Kind == "vacuity" || o.Kind == "reach"
+	if o.Kind == "drift" && o.Goal == "false" && strings.HasSuffix(o.Name, "#unsupported") {
+		finish("failed", "none", "not a solver result: the function left the verified subset")
+		return
+	}
 	decide := func(r solverRes) bool {
 		switch r.status {
 		case "unsat":
@@ -543,12 +554,14 @@ func (e *Engine) solveFile(o *Obl, file string) {
 		}
 		return
 	}
-	r := runSolver("z3-new", file, 3)
+	r := runSolver("z3-new", file, 4)
 	if decide(r) {
 		return
 	}
-	if vac {
-		// a contradiction would have shown up as a quick unsat; undecided satisfiability is accepted
+	if vac && !o.DeclaredUnreachable {
+		// a contradiction would have shown up as a quick unsat; undecided satisfiability is accepted.
+		// (A return site the contract declares unreachable goes through the whole portfolio instead: on a loaded
+		// machine the quick probe can time out, and "undecided" must not be read as "reachable".)
 		finish("discharged", "", "undecided (z3-new:"+r.status+")")
 		return
 	}
